@@ -731,6 +731,12 @@ class SimKernel:
             self.spawn(pid=ev["pid"], ppid=self.self_pid,
                        comm=old.comm if old is not None else b"python3")
             self.self_pid = ev["pid"]
+        elif kind == "hook":
+            # something the engine does at this moment on the thread that
+            # is running (a signal handler interrupting a sleep)
+            fn = getattr(self, "hooks", {}).get(ev["name"])
+            if fn is not None:
+                fn(ev)
         elif kind == "nop":
             pass
         else:
@@ -939,9 +945,18 @@ class SimKernel:
 
     def render_rollup(self, p):
         tot = {}
-        for m in p.maps:
+        frac = 0
+        for i, m in enumerate(p.maps):
             for k, v in m.get("fields", {}).items():
                 tot[k] = tot.get(k, 0) + v
+            # the kernel keeps the proportional share in bytes: each mapping
+            # of smaps shows it rounded down to kB, the rollup rounds the sum
+            if m.get("fields", {}).get("Pss", 0) < m.get("fields", {}).get(
+                    "Size", 0):
+                frac += (m.get("inode", 0) * 37 + i * 211 +
+                         m["fields"].get("Pss", 0) * 13) % 1024
+        if "Pss" in tot:
+            tot["Pss"] += frac // 1024
         out = [b"00400000-7ffd00000000 ---p 00000000 00:00 0"
                b"                          [rollup]\n"]
         for name in self.SMAPS_FIELDS:
@@ -1471,6 +1486,11 @@ class SimKernel:
             raise OverflowError("signed integer is greater than maximum")
 
     def _target(self, pid, allow_tid=True):
+        if self.cfg.get("pidns_foreign") and pid != self.self_pid:
+            # the procfs in use is that of another PID namespace (the host's
+            # /proc seen from a container): kill(2) looks PIDs up in the
+            # caller's own namespace, where none of them exists
+            return None
         p = self.procs.get(pid)
         if p is not None and p.releasing:
             return None
@@ -1580,6 +1600,13 @@ class SimKernel:
             if c < 0:
                 raise ValueError("invalid CPU value")
         p = self.procs.get(pid) if pid != 0 else self.procs.get(self.self_pid)
+        if p is None:
+            # sched_setaffinity(2) takes a thread id: one of the other
+            # threads of some process
+            for q in self.procs.values():
+                if pid in q.threads and not q.zombie:
+                    p = q
+                    break
         if p is None:
             raise self._err(errno.ESRCH)
         if self._denied(p):
